@@ -69,6 +69,17 @@ impl Mon {
         if let Some(d) = &obs.dispatcher {
             self.stsei_reward_denom = Some(d.stsei_reward_denom.clone());
         }
+        if let Some(tw) = &cfg.token_world {
+            for list in [&tw.bsei_initial, &tw.stsei_initial] {
+                let mut seen = BTreeSet::new();
+                if list.iter().any(|(a, _)| !seen.insert(a.to_lowercase())) {
+                    stats.probe("c18_duplicate_initial_address");
+                }
+            }
+            if !rejected.is_empty() {
+                stats.probe("c18_instantiate_rejected");
+            }
+        }
         misc::c18_supply(self, usize::MAX, obs, stats, out);
         let _ = (cfg, rejected);
     }
